@@ -551,3 +551,62 @@ class InitAdaptive(Contract):
 
 
 CONTRACTS += [InitActive(), InitOld(), InitAdaptive()]
+
+
+# --------------------------------------------------------------------------- getCombiScheme (adaptive branch): the scheme of exactly the current index set
+from pyvc.engine import Cl  # noqa: E402
+from pyvc.values import Opaque  # noqa: E402
+from pyvc import prelude as P_  # noqa: E402
+
+
+class _CoefficientsForCallers(Contract):
+    """caller-side form of get_coefficients_to_index_set (proved above for dims 1-3): some list of component grids, a function of (index set, the object's lmin, dim)"""
+    file, qualname = FILE, "CombiScheme.get_coefficients_to_index_set"
+    trusted = True
+    note = "proved separately (GetCoefficients, dims 1-3): returns the inclusion-exclusion coefficients of the index set it is given, with the object's own lmin"
+
+    def applies(self, receiver, args):
+        return "active_index_set" in receiver.fields
+
+    def inputs(self, S):
+        return {"self": scheme(S), "index_set": S.set("index_set", Vec)}
+
+    def result(self, S, env):
+        S.ex.ghost.setdefault("coeff_calls", []).append(env["index_set"])
+        r = Opaque(S.const("scheme_list", P_.U))
+        S.ex.ghost["coeff_result"] = r
+        return r
+
+
+for _c in CONTRACTS:
+    if isinstance(_c, GetCoefficients):
+        _c.applies = lambda receiver, args: "active_index_set" not in receiver.fields
+
+
+class GetCombiSchemeAdaptive(Contract):
+    """CombiScheme.getCombiScheme on an adaptively initialised object: the returned scheme is the one computed for EXACTLY the current index set (old | active) --
+    whatever lmin / lmax arguments are passed --, and asking for it changes nothing"""
+    file, qualname = FILE, "CombiScheme.getCombiScheme"
+    label = "CombiScheme.getCombiScheme[adaptive]"
+    loops = {2: Loop(inv=lambda S, env, g: [])}       # the print loop of the adaptive branch (do_print is False: its body does nothing)
+
+    def inputs(self, S):
+        return {"self": scheme(S), "lmin": S.int("lmin_arg"), "lmax": S.int("lmax_arg"), "do_print": False}
+
+    def post(self, S, old, env, result):
+        calls = S.ex.ghost.get("coeff_calls", [])
+        ok = len(calls) == 1 and isinstance(calls[0], SetV) and result is S.ex.ghost.get("coeff_result")
+        if not ok:
+            return [Cl("returns-the-coefficients-computed-once-for-the-index-set", False, prop=True)]
+        v = z3.Const("gv2", Vec)
+        so = old["self"].fields
+        return [Cl("returns-the-coefficients-computed-once-for-the-index-set", True, prop=True),
+                Cl("computed-for-exactly-old-union-active", z3.ForAll([v], z3.Select(calls[0].arr, v) == member(v, so["old_index_set"].arr, so["active_index_set"].arr)), prop=True)] + \
+               [Cl(n, e, prop=True) for n, e in fields_unchanged(old["self"], env["self"], ALL_FIELDS)]
+
+    @staticmethod
+    def model_to_input(model):
+        return {"kind": "C01.scheme_query"}
+
+
+CONTRACTS += [_CoefficientsForCallers(), GetCombiSchemeAdaptive()]
